@@ -41,6 +41,7 @@ type Task struct {
 	kill   bool
 	stall  uint64 // not eligible before this step while others are
 	auto   bool   // registered itself at a yield (not started through Go)
+	idleOnly bool // eligible only when nothing else is
 	Steps  uint64
 }
 
@@ -267,6 +268,17 @@ func (s *Sched) finish(t *Task) {
 	s.mu.Unlock()
 }
 
+// YieldIdle parks until no other task can run (the rest of the system is quiescent).
+func (s *Sched) YieldIdle(site string) {
+	gid := goid()
+	s.mu.Lock()
+	if t := s.byGid[gid]; t != nil {
+		t.idleOnly = true
+	}
+	s.mu.Unlock()
+	s.park(site, nil, false, nil)
+}
+
 func (s *Sched) park(site string, keys []interface{}, poll bool, cond func() bool) {
 	if s.Inactive[site] {
 		return
@@ -335,7 +347,7 @@ func (s *Sched) NodeDead(node int) bool {
 }
 
 func (s *Sched) eligibleLocked() []*Task {
-	var el, stalled []*Task
+	var el, stalled, idle []*Task
 	for _, t := range s.tasks {
 		if t.st != stParked || s.dead[t.Node] {
 			continue
@@ -346,6 +358,10 @@ func (s *Sched) eligibleLocked() []*Task {
 		if t.cond != nil && !t.cond() {
 			continue
 		}
+		if t.idleOnly {
+			idle = append(idle, t)
+			continue
+		}
 		if t.stall > s.step {
 			stalled = append(stalled, t)
 			continue
@@ -354,6 +370,9 @@ func (s *Sched) eligibleLocked() []*Task {
 	}
 	if len(el) == 0 {
 		el = stalled
+	}
+	if len(el) == 0 {
+		el = idle
 	}
 	sort.Slice(el, func(i, j int) bool { return el[i].Name < el[j].Name })
 	return el
@@ -399,6 +418,7 @@ func (s *Sched) Step() bool {
 		s.Switches++
 	}
 	pick.st = stRunning
+	pick.idleOnly = false
 	pick.Steps++
 	s.cur = pick
 	s.last = pick
